@@ -79,7 +79,7 @@ func posEndReceiversDepth(v ssa.Value, depth int) map[string][]ssa.Value {
 						if idx >= len(r.Results) {
 							continue
 						}
-						for name, recvs := range posEndReceiversDepth(r.Results[idx], depth+1) {
+						for name, recvs := range posEndReceiversDepth(ReturnOperand(r, idx), depth+1) {
 							for _, rv := range recvs {
 								for pi, prm := range callee.Params {
 									if rv == ssa.Value(prm) && pi < len(hcall.Call.Args) {
@@ -233,7 +233,7 @@ func runC16(c *Ctx) {
 				if len(r.Results) < 2 {
 					continue
 				}
-				pr, er := nodeRoots(r.Results[0]), nodeRoots(r.Results[1])
+				pr, er := nodeRoots(ReturnOperand(r, 0)), nodeRoots(ReturnOperand(r, 1))
 				if len(pr) == 0 || len(er) == 0 {
 					continue // a constant (NoPos)
 				}
